@@ -1,0 +1,20 @@
+//go:build verif
+// +build verif
+
+/*
+SPDX-License-Identifier: Apache-2.0
+*/
+
+package messagepickup
+
+import "github.com/hyperledger/aries-framework-go/pkg/didcomm/common/service"
+
+// VerifHandleStatusRequest runs the inbound status-request handler synchronously (verification hook).
+func (s *Service) VerifHandleStatusRequest(msg service.DIDCommMsg, myDID, theirDID string) error {
+	return s.handleStatusRequest(msg, myDID, theirDID)
+}
+
+// VerifHandleBatchPickup runs the inbound batch-pickup handler synchronously (verification hook).
+func (s *Service) VerifHandleBatchPickup(msg service.DIDCommMsg, myDID, theirDID string) error {
+	return s.handleBatchPickup(msg, myDID, theirDID)
+}
